@@ -47,6 +47,18 @@ os.environ[GUARD] = "1"
 if str(REPO) not in sys.path:
     sys.path.insert(0, str(REPO))
 
+
+def assert_tree_under_check() -> None:
+    """The implementation that is exercised must be the tree under check — never another copy of the package that happens to be
+    importable (the virtualenv has /repo installed in editable mode: if VERIF_REPO points to a directory that has disappeared, the
+    import would silently fall back to it and the check would pass on the wrong code)."""
+    if not (REPO / "capellambse" / "__init__.py").is_file():
+        raise SystemExit(f"VERIF_REPO={REPO} is not a py-capellambse tree (capellambse/__init__.py is missing): refusing to check something else")
+    import capellambse
+    got = pathlib.Path(capellambse.__file__).resolve()
+    if got != (REPO / "capellambse" / "__init__.py").resolve():
+        raise SystemExit(f"capellambse was imported from {got}, not from the tree under check {REPO}: refusing to report on the wrong code")
+
 # ---------------------------------------------------------------- values
 ERRS = {
     "KeyError": 1, "ValueError": 2, "TypeError": 3, "IndexError": 4,
@@ -591,7 +603,16 @@ def main(pid: str, run: t.Callable[[Check], None], level: str = "proof"):
     chk = Check(pid, tier, seed, level)
     chk.replay_file = a.replay
     try:
+        assert_tree_under_check()
         run(chk)
+        # ... and it must still be that tree at the end (a scratch worktree removed under a running check would make later imports
+        # fall back to another copy of the package)
+        stray = sorted({str(getattr(m_, "__file__", "")) for n_, m_ in list(sys.modules.items())
+                        if (n_ == "capellambse" or n_.startswith("capellambse.")) and getattr(m_, "__file__", None)
+                        and not str(pathlib.Path(m_.__file__).resolve()).startswith(str(REPO.resolve()) + os.sep)})
+        if stray or not (REPO / "capellambse" / "__init__.py").is_file():
+            chk.broken.append(f"the tree under check {REPO} was not the only source of the implementation during the run "
+                              f"(missing now: {not (REPO / 'capellambse' / '__init__.py').is_file()}; modules from elsewhere: {stray[:3]})")
     except BaseException as e:  # a crashing check must not look like a pass
         import traceback
         traceback.print_exc()
